@@ -15,6 +15,7 @@ import (
 	"github.com/pentops/j5/j5types/decimal_j5t"
 	"github.com/shopspring/decimal"
 	"google.golang.org/protobuf/reflect/protoreflect"
+	"google.golang.org/protobuf/types/known/durationpb"
 	"google.golang.org/protobuf/types/known/timestamppb"
 )
 
@@ -47,6 +48,18 @@ func scalarReflectFromGo(schema *schema_j5pb.Field, value interface{}) (protoref
 		}
 
 	case *schema_j5pb.Field_String_:
+		if st.String_.GetFormat() == durationFormat {
+			// google.protobuf.Duration, presented as a string
+			switch val := value.(type) {
+			case string:
+				return durationFromString(val)
+			case *string:
+				if val == nil {
+					return protoreflect.Value{}, nil
+				}
+				return durationFromString(*val)
+			}
+		}
 		switch val := value.(type) {
 		case string:
 			return protoreflect.ValueOfString(val), nil
@@ -432,6 +445,63 @@ func scalarReflectFromGo(schema *schema_j5pb.Field, value interface{}) (protoref
 // gigabyte of digits.
 const maxDecimalExponent = 4096
 
+// durationFormat is the string format under which google.protobuf.Duration
+// fields are presented (see j5schema).
+const durationFormat = "duration"
+
+// durationToString renders a google.protobuf.Duration like protojson does:
+// seconds with up to nine fractional digits and an "s" suffix.
+func durationToString(msg protoreflect.Message) (string, error) {
+	fields := msg.Descriptor().Fields()
+	dur := &durationpb.Duration{
+		Seconds: msg.Get(fields.ByName("seconds")).Int(),
+		Nanos:   int32(msg.Get(fields.ByName("nanos")).Int()),
+	}
+	if err := dur.CheckValid(); err != nil {
+		return "", err
+	}
+	sign := ""
+	secs, nanos := dur.Seconds, dur.Nanos
+	if secs < 0 || nanos < 0 {
+		sign, secs, nanos = "-", -secs, -nanos
+	}
+	str := fmt.Sprintf("%s%d.%09d", sign, secs, nanos)
+	str = strings.TrimRight(str, "0")
+	str = strings.TrimSuffix(str, ".")
+	return str + "s", nil
+}
+
+func durationFromString(val string) (protoreflect.Value, error) {
+	num, ok := strings.CutSuffix(val, "s")
+	if !ok {
+		return protoreflect.Value{}, fmt.Errorf("invalid duration %q, expected seconds with an 's' suffix", val)
+	}
+	num, negative := strings.CutPrefix(num, "-")
+	whole, frac, _ := strings.Cut(num, ".")
+	if len(frac) > 9 {
+		return protoreflect.Value{}, fmt.Errorf("invalid duration %q, too many fractional digits", val)
+	}
+	secs, err := strconv.ParseUint(whole, 10, 63)
+	if err != nil {
+		return protoreflect.Value{}, fmt.Errorf("invalid duration %q", val)
+	}
+	var nanos uint64
+	if frac != "" {
+		nanos, err = strconv.ParseUint(frac+strings.Repeat("0", 9-len(frac)), 10, 32)
+		if err != nil {
+			return protoreflect.Value{}, fmt.Errorf("invalid duration %q", val)
+		}
+	}
+	dur := &durationpb.Duration{Seconds: int64(secs), Nanos: int32(nanos)}
+	if negative {
+		dur.Seconds, dur.Nanos = -dur.Seconds, -dur.Nanos
+	}
+	if err := dur.CheckValid(); err != nil {
+		return protoreflect.Value{}, err
+	}
+	return protoreflect.ValueOfMessage(dur.ProtoReflect()), nil
+}
+
 func decimalFromString(val string) (protoreflect.Value, error) {
 	d, err := decimal.NewFromString(val)
 	if err != nil {
@@ -481,6 +551,11 @@ func scalarGoFromReflect(schema *schema_j5pb.Field, val protoreflect.Value) (int
 		return val.Bool(), nil
 
 	case *schema_j5pb.Field_String_:
+		if st.String_.GetFormat() == durationFormat {
+			if msg, ok := val.Interface().(protoreflect.Message); ok {
+				return durationToString(msg)
+			}
+		}
 		return val.String(), nil
 
 	case *schema_j5pb.Field_Key:
